@@ -497,7 +497,7 @@ def huge_points(rng, n, xs=False):
     """n kinematic points for the rare *huge* runs (more than 256 per observable: the size at which
     CPython stops sharing small-int objects, 8-bit counters wrap, etc.); cheap because they are only
     used at leading order on a three-node grid."""
-    xsv = [round(0.06 + 0.0225 * k, 4) for k in range(40)]
+    xsv = [round(0.06 + 0.0045 * k, 4) for k in range(200)]  # many distinct values: distinct cache/memo keys
     q2v = [2.0, 5.0, 10.0, 30.0, 90.0, 250.0, 1000.0, 17.5]
     pts = []
     for _ in range(n):
